@@ -12,6 +12,7 @@ struct hx_proc {
 	int alive;
 	int norun;
 	int rfd;
+	double stopped;	/* when it was stopped (SIGSTOP), 0 while running */
 };
 
 extern struct hx_proc hx_procs[HX_MAXPROC];
@@ -26,4 +27,5 @@ extern void hx_log_esc(const char *s, size_t n);
 extern void hx_flush(void);
 extern void hx_drain_vtodos(void);
 extern void hx_queue_exit(size_t idx, int status);
+extern void hx_queue_jobctl(size_t idx, int cont);
 #endif
